@@ -664,7 +664,7 @@ Proof.
   destruct (float_text_fixed (size f) dd up sep s m e) as [d [Hd He]].
   exists d. split; [exact Hd|]. split; [exact He|].
   unfold reread.
-  rewrite (render_float f dd false up sep (S754_finite s m e) Hk eq_refl).
+  rewrite (render_float f dd false up sep (S754_finite s m e) Hk eq_refl eq_refl).
   rewrite Hk. cbn [interp]. rewrite He.
   assert (Hnn : (0 <= round_dec m e (Z.of_nat d))%Z) by apply round_dec_nonneg.
   rewrite (dialect_roundtrip sep _ _ Hsep (plain_notin_comma _ (fixed_text_plain s _ d Hnn))).
